@@ -44,6 +44,10 @@ def run(chk, repo):
     chk.doc("R12.6", "a rejected datagram leaves the packet untouched "
                      "(Packet.append: shared with C11 R11.2)")
     c11.accounting(chk, repo, "R12.6")
+    chk.doc("R12.7", "the datagram chain: every datagram but the last "
+                     "carries the 'more follows' flag, by position "
+                     "(Packet.assemble: shared with C11 R11.3)")
+    c11.assemble_rules(chk, repo, "R12.7")
 
 
 def r3_progress(chk, repo):
@@ -220,6 +224,19 @@ def r2(chk, repo):
     cfg = CFG(f)
     rd = ReachingDefs(cfg)
     apps = find("$l.append(($a, $b, $f))", f)
+    pas = [c for c, _ in find("$p.append(*$d)", f)]
+    need(len(pas) >= 1, f"{sym}: packet.append(*dgram) not found")
+    dropped = [c for c in pas if isinstance(getattr(c, "_parent", None),
+                                            ast.Expr)]
+    chk.ob(rule, sym, "the position packet.append() returns for a datagram "
+           "is kept", not dropped, dropped[0] if dropped else pas[0],
+           "the (start, stop) pair is discarded: whoever slices the "
+           "response has to re-derive the position, and any request that "
+           "is skipped there (a cancelled one) shifts every later request "
+           "of the frame onto its predecessor's bytes" if dropped else
+           "unpacked into start, stop")
+    if dropped and len(apps) != 1:
+        return
     need(len(apps) == 1, f"{sym}: expected one append of a "
                          f"(start, stop, future) tuple")
     call, b = apps[0]
